@@ -40,29 +40,47 @@ def history_oids_tids(hist):
     return oids, tids
 
 
-def prepare(hist, tmp, tag):
+def prepare(hist, tmp, tag, base_root=None, base_ctx=None):
     """run the history for real, compute prefixes, reference dumps and the static oracle checks.
-    Returns (ctx, violations) — violations found without looking at any cut."""
+    Returns (ctx, violations) — violations found without looking at any cut.
+    base_root: continue in this directory (the image of an earlier crash of `base_ctx`, with all its
+    side files): the storage is reopened there first (recovery) and the history runs on top."""
     viol = []
     ctx = HistCtx()
     ctx.hist = hist
-    ctx.hid = hashlib.sha1(json.dumps(hist, sort_keys=True).encode()).hexdigest()[:12]
-    root = os.path.join(tmp, 'run-' + tag)
-    if os.path.exists(root):
+    ctx.keep_side = base_root is not None
+    ctx.hid = hashlib.sha1(json.dumps([hist, tag if base_root else None], sort_keys=True).encode()).hexdigest()[:12]
+    root = base_root or os.path.join(tmp, 'run-' + tag)
+    if base_root is None and os.path.exists(root):
         shutil.rmtree(root)
     try:
-        rr = L.run_history(hist, root)
+        rr = L.run_history(hist, root, existing=base_root is not None)
     except Exception as e:
         import traceback
         tb = traceback.extract_tb(e.__traceback__)
         where = ' <- '.join('%s:%d' % (os.path.basename(f.filename), f.lineno) for f in tb[-3:])
         ctx.rr = None
-        viol.append(('C01:history-raised', 'executing the history (no crash, no fault) raised %s: %s [%s]'
-                     % (type(e).__name__, str(e)[:160], where), None))
+        if base_root is not None:
+            viol.append(('C01:continue-after-recovery-raised', 'reopening the crash image in place (with all its side '
+                         'files) and continuing with more commits raised %s: %s [%s]'
+                         % (type(e).__name__, str(e)[:160], where), None))
+        else:
+            viol.append(('C01:history-raised', 'executing the history (no crash, no fault) raised %s: %s [%s]'
+                         % (type(e).__name__, str(e)[:160], where), None))
         return ctx, viol
     ctx.rr = rr
     ctx.magic = rr.init['Data.fs'][:4]
     ctx.oids, ctx.tids = history_oids_tids(hist)
+    ctx.base_n = 0
+    if base_ctx is not None:
+        ctx.oids = sorted(set(ctx.oids) | set(base_ctx.oids))
+        ctx.tids = sorted(set(ctx.tids) | set(base_ctx.tids))
+        try:
+            ctx.base_n = len(L.parse_file(rr.init['Data.fs'], ctx.magic))
+        except L.ParseError as e:
+            viol.append(('C01:file-not-clean-prefix', 'after the recovering reopen the data file is not a clean '
+                         'sequence of finished transactions: %s' % e, None))
+            return ctx, viol
     # ---- O1: the uncrashed file holds exactly the committed transactions, as issued
     try:
         txs = L.parse_file(rr.final, ctx.magic)
@@ -71,13 +89,13 @@ def prepare(hist, tmp, tag):
                      'well-formed sequence of finished transactions: %s' % e, None))
         return ctx, viol
     ctx.txs = txs
-    if len(txs) != len(rr.committed):
-        viol.append(('C01:committed-content', 'file holds %d transactions, %d commits returned'
-                     % (len(txs), len(rr.committed)), None))
+    if len(txs) != ctx.base_n + len(rr.committed):
+        viol.append(('C01:committed-content', 'file holds %d transactions, %d were there and %d commits returned'
+                     % (len(txs), ctx.base_n, len(rr.committed)), None))
         return ctx, viol
     resolved = L.resolve_data(txs)
     for j, k in enumerate(rr.committed):
-        t, f, issued = hist[k], txs[j], rr.issued[j]
+        t, f, issued = hist[k], txs[ctx.base_n + j], rr.issued[j]
         what = None
         if (f['tid'], f['status'], f['user'], f['desc'], f['ext']) != (
                 t['tid'], t['status'], L.spec_bytes(t['user']), L.spec_bytes(t['desc']), L.spec_bytes(t['ext'])):
@@ -109,7 +127,7 @@ def prepare(hist, tmp, tag):
         ctx.refs_noit.setdefault(L.canon({k: v for k, v in d.items() if k != 'iterator_start'}), []).append(n)
     # ---- O3: fsync between the status-byte write and the ret mark; no later write below the end
     evs = rr.events
-    nret = 0
+    nret = ctx.base_n
     for i, e in enumerate(evs):
         if e[0] == 'mark' and e[1].startswith('ret finish'):
             j = i - 1
@@ -162,7 +180,7 @@ def enumerate_cuts(ctx, rng, tier, limit=None):
     nrand = 200 if tier == 'quick' else 3000
     interior = []
     cuts = []
-    returned = 0
+    returned = getattr(ctx, 'base_n', 0)
     for k in range(len(evs) + 1):
         e = evs[k] if k < len(evs) else None
         ci, off = where.get(k, (len(can), 0))
@@ -208,7 +226,11 @@ def cut_images(ctx, cuts):
             tmp = {'Data.fs': data}
             vfs.apply_events(tmp, [e], nbytes_last=nb)
             data = tmp['Data.fs']
-        yield c, data, img.get('Data.fs.index')
+        side = None
+        if getattr(ctx, 'keep_side', False):
+            side = {n: b for n, b in img.items() if b is not None and not n.endswith('/')
+                    and n not in ('Data.fs', 'Data.fs.lock', 'Data.fs.tmp')}
+        yield c, data, img.get('Data.fs.index'), side
 
 
 # ---------------------------------------------------------------- judging one cut (worker)
@@ -226,7 +248,7 @@ def _workdir():
 def judge(task):
     """task = (cut, data, index, with_index).  Returns (cut, violation|None, observation)"""
     ctx = CTX
-    cut, data, index, with_index = task
+    cut, data, index, with_index, side = task
     returned = cut[3]
     wd = _workdir()
     obs = {}
@@ -320,14 +342,45 @@ def judge(task):
         if n3 != n:
             return cut, ('C01:with-index:differs', 'reopen with the index file shows %d transactions, '
                          'without %d' % (n3, n)), obs
+    # (d) dumps of tails cut off by EARLIER recoveries lie next to the file (.tr0, .tr1)
+    if with_index:
+        L.write_dir(wd, {'Data.fs': data, 'Data.fs.tr0': b'tail saved by an earlier recovery',
+                         'Data.fs.tr1': b'FS30 and another one'})
+        d4, err = L.open_and_dump(wd, ctx.oids, ctx.tids)
+        if d4 is None:
+            return cut, ('C01:open-raised:earlier-tr-files', 'reopening the crash image next to the .tr0/.tr1 files of '
+                         'earlier recoveries raised ' + err), obs
+        n4, v = match(d4, 'writable')
+        if v or n4 != n:
+            return cut, ('C01:tr-files-change-state', 'reopen next to .tr0/.tr1 of earlier recoveries shows %s, '
+                         'without them %d transactions' % (v[1][:200] if v else n4, n)), obs
+        files = L.read_dir(wd)
+        if files.get('Data.fs.tr0') != b'tail saved by an earlier recovery' or \
+                files.get('Data.fs.tr1') != b'FS30 and another one':
+            return cut, ('C01:earlier-tr-file-overwritten', 'the recovery overwrote the dump of an earlier recovery'), obs
+    # (e) second crash of the same data file: all side files of the first recovery are still there
+    if side is not None:
+        files = dict(side)
+        files['Data.fs'] = data
+        L.write_dir(wd, files)
+        d5, err = L.open_and_dump(wd, ctx.oids, ctx.tids)
+        if d5 is None:
+            return cut, ('C01:open-raised:second-crash', 'crash, reopen (recovery), more commits, crash again: the '
+                         'second reopen in the same directory (side files %s) raised %s' % (sorted(side), err)), obs
+        n5, v = match(d5, 'writable')
+        if v or n5 != n:
+            return cut, ('C01:second-crash-differs', 'second reopen in the same directory (side files %s) shows %s, '
+                         'Data.fs alone %d transactions' % (sorted(side), v[1][:200] if v else n5, n)), obs
+        obs['second_crash'] = True
     return cut, None, obs
 
 
 # ---------------------------------------------------------------- one history
-def check_history(hist, ck, tag, pool_size, rng, tier, limit=None, stop_early=False):
+def check_history(hist, ck, tag, pool_size, rng, tier, limit=None, stop_early=False, base_root=None,
+                  base_ctx=None):
     """returns dict(violations=[(sig, what, cut)], model=(lines, checks, cutchecks) | None, stats)"""
     global CTX
-    ctx, viol = prepare(hist, ck.tmp, tag)
+    ctx, viol = prepare(hist, ck.tmp, tag, base_root, base_ctx)
     ctx.tmp = ck.tmp
     res = dict(violations=list(viol), model=None, ncuts=0, nontrivial=0, ctx=ctx)
     if ctx.rr is None or (viol and not hasattr(ctx, 'refs')):
@@ -336,8 +389,8 @@ def check_history(hist, ck, tag, pool_size, rng, tier, limit=None, stop_early=Fa
         return res
     cuts = enumerate_cuts(ctx, rng, tier, limit)
     CTX = ctx
-    tasks = ((c, data, index, (i % 3 == 0) or tier == 'thorough')
-             for i, (c, data, index) in enumerate(cut_images(ctx, cuts)))
+    tasks = ((c, data, index, (i % 3 == 0) or tier == 'thorough', side)
+             for i, (c, data, index, side) in enumerate(cut_images(ctx, cuts)))
     results = []
     if pool_size > 1 and len(cuts) > 64:
         with multiprocessing.get_context('fork').Pool(pool_size) as pool:
@@ -360,6 +413,8 @@ def check_history(hist, ck, tag, pool_size, rng, tier, limit=None, stop_early=Fa
                 seen_sig.add(ks)
                 res['violations'].append((ks, kw, [cut[0], cut[1]]))
     res['results'] = results
+    if base_root is not None:
+        return res
     # model lines
     try:
         lines, checks, can = L.model_lines_for_run(hist, ctx.rr)
@@ -424,6 +479,94 @@ def raw_observe(ctx, data):
     return 'pos=%d ltid=%016x|len=%d fnv=%s' % (pos, ltid, len(after), L.fnv64(after))
 
 
+# ---------------------------------------------------------------- crash, recover in place, continue, crash again
+def double_crash(hist, ctx, ck, tag, pool_size, rng, tier, forced=None):
+    """(crash_recover_continue on the real code) materialise the WHOLE directory at a first cut that leaves
+    at least a full header behind the committed end, reopen it in place (the recovery leaves Data.fs.trN),
+    run a second history on top, and judge every cut of the second run reopened next to ALL side files.
+    Returns [(sig, what, case)]."""
+    out = []
+    evs = ctx.rr.events
+    cands = []
+    for k, e in enumerate(evs):
+        if e[0] == 'write' and e[1] == 'Data.fs':
+            if len(e[3]) > 1:
+                cands += [[k, nb] for nb in sorted({23, 24, len(e[3]) // 2, len(e[3]) - 1}) if 23 <= nb < len(e[3])]
+            elif k > 0:
+                cands.append([k, None])         # complete vote write, status byte still 'c'
+    if forced:
+        picks = [(forced[0], forced[1])]
+    else:
+        picks = []
+        for c in rng.sample(cands, min(len(cands), 2 if tier == 'quick' else 5)):
+            h2 = L.gen_history(rng, 'small', ntx=rng.choice([1, 2, 3]))
+            delta = max(ctx.tids) - L.TID_BASE + 0x1000000
+            for t in h2:
+                t['tid'] += delta
+            picks.append((c, h2))
+    for i, (c1, h2) in enumerate(picks):
+        root = os.path.join(ck.tmp, 'dc-%s-%d' % (tag, i))
+        if os.path.exists(root):
+            shutil.rmtree(root)
+        vfs.materialize(ctx.rr.init, evs, c1[0], c1[1], root)
+        res2 = check_history(h2, ck, '%s-dc%d' % (tag, i), pool_size, rng, tier,
+                             150 if tier == 'quick' else 1200, base_root=root, base_ctx=ctx)
+        ck.count('double-crash-runs')
+        for cut, v, obs in res2.get('results', []):
+            ck.case([res2['ctx'].hid, cut[0], cut[1]], cut[2], None)
+            if obs.get('second_crash'):
+                ck.count('second-crash-cuts')
+        for sig, what, cut2 in res2['violations']:
+            out.append((sig, what, dict(history=hist, cut=c1, then=dict(history=h2, cut=cut2))))
+    return out
+
+
+# ---------------------------------------------------------------- fsync raising during tpc_finish
+FSYNC_MODEL = []       # (history, driver lines, expected observations) of runs with an injected fsync failure
+
+def fsync_fault(hist, ck, tag):
+    """the fsync issued by the LAST committing transaction's tpc_finish raises EIO: tpc_finish must not
+    return normally (a returned commit needs a SUCCESSFUL fsync after its status-byte write), and the data
+    file must reopen to the commits returned before, or those plus the faulted one.  Returns (sig, what) | None"""
+    ks = [i for i, t in enumerate(hist) if t['kind'] == 'commit']
+    if not ks:
+        return None
+    k = ks[-1]
+    root = os.path.join(ck.tmp, 'ff-' + tag)
+    if os.path.exists(root):
+        shutil.rmtree(root)
+    try:
+        rr = L.run_history(hist, root, fsync_fault_at=k)
+    except Exception as e:
+        return ('C01:history-raised', 'executing the history up to the injected fsync failure raised %s: %s'
+                % (type(e).__name__, str(e)[:160]))
+    if rr.fsync_fault is None:
+        return None                      # the transaction did not get as far as tpc_finish
+    ck.count('fsync-fault:' + rr.fsync_fault)
+    if rr.fsync_fault.startswith('raised') and len(rr.final) <= 20000:
+        try:
+            lines, checks, _ = L.model_lines_for_run(hist, rr)
+            FSYNC_MODEL.append((hist, lines, checks))
+        except Exception:
+            pass
+    if rr.fsync_fault in ('returned', 'no-fsync-issued'):
+        return ('C01:returned-without-successful-fsync', 'tpc_finish of transaction %d returned normally although %s'
+                % (k, 'the fsync of Data.fs raised EIO: its data was never forced to stable storage'
+                   if rr.fsync_fault == 'returned' else 'no fsync of Data.fs was issued'))
+    oids, tids = history_oids_tids(hist)
+    for n in ('Data.fs.lock',):
+        pass
+    d, err = L.open_and_dump(root, oids, tids)
+    if d is None:
+        return ('C01:open-raised:after-fsync-failure', 'after a tpc_finish whose fsync raised, reopening raised ' + err)
+    n = len(d['iterator']) if isinstance(d['iterator'], list) else -1
+    cb = len(rr.committed)
+    if n not in (cb, cb + 1):
+        return ('C01:not-a-prefix:after-fsync-failure', 'after a tpc_finish whose fsync raised the reopened file shows '
+                '%s transactions, %d commits had returned' % (d['iterator'] if n < 0 else n, cb))
+    return None
+
+
 def case_of(hist, cut=None):
     return dict(history=hist, cut=cut)
 
@@ -454,6 +597,23 @@ def main(argv=None):
         hists = [('replay', j['case']['history'])]
         if j['case'].get('cut'):
             FORCE_CUTS.append(list(j['case']['cut']))
+        if j['case'].get('fsync_fault'):
+            ck.run_gate(ck.extra['modules'], ['Props.C01']) if ck.gate is None else None
+            ff = fsync_fault(j['case']['history'], ck, 'replay')
+            ck.case(['replay', 'fsync-fault'], True, None)
+            if ff:
+                ck.violation(ff[0], ff[1], j['case'])
+            hists = []
+        elif j['case'].get('then'):
+            ctx0, v0 = prepare(j['case']['history'], ck.tmp, 'replay0')
+            ctx0.tmp = ck.tmp
+            if ctx0.rr is not None and hasattr(ctx0, 'ends'):
+                if j['case']['then'].get('cut'):
+                    FORCE_CUTS.append(list(j['case']['then']['cut']))
+                for sig, what, case in double_crash(j['case']['history'], ctx0, ck, 'replay', 1, ck.rng, 'quick',
+                                                    forced=(j['case']['cut'], j['case']['then']['history'])):
+                    ck.violation(sig, what, case)
+            hists = []
     else:
         hists += load_corpus()
         if tier == 'quick':
@@ -491,6 +651,10 @@ def main(argv=None):
                 ck.count('recovered_n=%d' % obs['n'])
             if obs.get('used_index') is not None:
                 ck.count('used_index=%s' % obs['used_index'])
+        import re as _re
+
+        def listed(sig):
+            return any(k.get('status', 'open') == 'open' and _re.fullmatch(k['signature'], sig) for k in ck.known)
         for sig, what, cut in res['violations']:
             import re as _re
             if any(k.get('status', 'open') == 'open' and _re.fullmatch(k['signature'], sig) for k in ck.known):
@@ -498,12 +662,35 @@ def main(argv=None):
                 continue
             small, scut, swhat = shrink(hist, sig, ck, cut, what)
             ck.violation(sig, swhat, case_of(small, scut))
+        if ctx.rr is not None and not [v for v in res['violations'] if not listed(v[0])] and \
+                (ck.replay_path is None) and \
+                len(ctx.rr.final) <= 20000 and (tier == 'thorough' or hi % 2 == 0):
+            for sig, what, case in double_crash(hist, ctx, ck, 'h%d' % hi, pool, ck.rng, tier):
+                ck.violation(sig, what, case)
+        if ctx.rr is not None and ck.replay_path is None:
+            ff = fsync_fault(hist, ck, 'h%d' % hi)
+            ck.case([ctx.hid, 'fsync-fault'], True, None)
+            if ff:
+                def ff_fails(sub, sig=ff[0]):
+                    r = fsync_fault(sub, ck, 'shrink')
+                    return bool(r) and r[0] == sig
+                small = hist
+                try:
+                    small = ddmin(hist, ff_fails, max_tests=30) if len(hist) > 1 else hist
+                    if not ff_fails(small):
+                        small = hist
+                except Exception:
+                    small = hist
+                ck.violation(ff[0], ff[1], dict(history=small, fsync_fault=True))
         if res.get('model_error'):
             ck.mismatch(res['model_error'], case_of(hist))
-        if res['model'] and not res['violations']:
+        if res['model'] and not [v for v in res['violations'] if not listed(v[0])]:
             lines, checks, cutchecks, rawchecks = res['model']
             expectations.append((name, hist, len(all_lines), checks, cutchecks, rawchecks))
             all_lines += lines
+    for hist_, lines_, checks_ in FSYNC_MODEL:
+        expectations.append(('fsync-fault', hist_, len(all_lines), checks_, {}, {}))
+        all_lines += lines_
     # ---- model: one driver run for everything
     if all_lines:
         out = run_driver('Disk', all_lines, timeout=1500)
